@@ -32,6 +32,7 @@ type KnownFile struct {
 type Claimed struct {
 	Property    string            `json:"property"`
 	Obligations map[string]string `json:"obligations"` // name -> clause hash ("" for safe/frame)
+	Excluded    []string          `json:"excluded"`    // generated on the pinned tree but not discharged there (never counted)
 }
 
 func hasID(ids []string, id string) bool {
@@ -144,6 +145,15 @@ func runCheck(cmd, id, repo, verif, tier string, keep bool, only string, verbose
 	}
 	eng.specs = specs
 	eng.verif = verif
+	// trusted contracts of external (standard library / dependency) functions
+	libs, _ := filepath.Glob(filepath.Join(verif, "lib", "*.contracts"))
+	sort.Strings(libs)
+	for _, lf := range libs {
+		if err := eng.contracts.LoadFile("", lf); err != nil {
+			fmt.Fprintln(os.Stderr, "lib contracts:", err)
+			return 2
+		}
+	}
 	tLoad := time.Since(t0).Seconds()
 
 	outDir := filepath.Join(verif, "out", id)
@@ -226,6 +236,7 @@ func runCheck(cmd, id, repo, verif, tier string, keep bool, only string, verbose
 				}
 				cl.Obligations[o.name] = h
 			} else {
+				cl.Excluded = append(cl.Excluded, o.name)
 				fmt.Printf("not claimed (%s): %s\n", o.status, o.name)
 			}
 		}
@@ -279,7 +290,14 @@ func runCheck(cmd, id, repo, verif, tier string, keep bool, only string, verbose
 		present[o.name] = o
 		solverSecs += o.secs
 		kf := isKnown(o.name)
-		counted := !haveClaim || claimed.Obligations[o.name] != "" || hasKey(claimed.Obligations, o.name)
+		// every generated obligation counts (including ones a code change introduces), except
+		// those explicitly excluded when the claim was made on the pinned tree
+		counted := true
+		for _, ex := range claimed.Excluded {
+			if ex == o.name {
+				counted = false
+			}
+		}
 		if kf != nil {
 			if o.status == "failed" || o.status == "undecided" {
 				// (with quantified axioms in scope the solvers answer unknown rather than sat)
@@ -336,6 +354,11 @@ func runCheck(cmd, id, repo, verif, tier string, keep bool, only string, verbose
 	if haveClaim {
 		for name := range claimed.Obligations {
 			if present[name] == nil {
+				// site-numbered obligations (safety checks, call-site preconditions, frames)
+				// come and go with harmless edits; clause-keyed ones must stay
+				if strings.Contains(name, "#safe.") || strings.Contains(name, "#pre@") || strings.Contains(name, "#frame.") || strings.Contains(name, "#alloc.") {
+					continue
+				}
 				missing = append(missing, name)
 			}
 		}
